@@ -505,8 +505,10 @@ where
 
     fn output_frames_max(&self) -> usize {
         // Set length to chunksize*ratio plus a safety margin of 10 elements.
-        (self.max_chunk_size as f64 * self.resample_ratio_original * self.max_relative_ratio + 10.0)
-            as usize
+        // The upper ratio limit is multiplied out first, exactly as the ratio setters compute it,
+        // so that output_frames_next() can never round above this value.
+        (self.max_chunk_size as f64 * (self.resample_ratio_original * self.max_relative_ratio)
+            + 10.0) as usize
     }
 
     fn output_frames_next(&self) -> usize {
